@@ -5,7 +5,8 @@ From Coq Require Import String List NArith Arith Bool ZArith.
 Import ListNotations.
 Require Import Verif.Imports.Rules Verif.Imports.Collect Verif.Imports.Faults Verif.Imports.FaultsProps Verif.Imports.FaultsProgress
                Verif.Imports.CurrentFaults Verif.Gen.ImportRules Verif.Gen.Guards Verif.Total.Pipeline
-               Verif.Imports.ForeignTypes Verif.Imports.Foreign Verif.Imports.ForeignProps Verif.Imports.ForeignCurrent Verif.Gen.FaultArms.
+               Verif.Imports.ForeignTypes Verif.Imports.Foreign Verif.Imports.ForeignProps Verif.Imports.ForeignCurrent Verif.Gen.FaultArms
+               Verif.Imports.FaultWinner.
 
 (* the source still has the shape the model was transliterated from *)
 Theorem C06_rules_current : current_rules = expected_rules.
@@ -137,7 +138,7 @@ Print Assumptions C06_foreign_fails_clean.
 
 (* what the current tables accept: an extension outside .yaml .json .yml .sysl .proto (and no compiled-model suffix)
    never compiles; two signatures in a .yaml / .yml / .json are ambiguous; none is undetectable; a compiled model that does
-   not decode is a decoding fault *)
+   not decode is a decoding fault; one that decodes but cannot be merged is a merge fault (second pass) *)
 Theorem C06_current_unaccepted_ext_fails : forall d,
   ~ bad_collect d -> pb_dispatch pb_cases (d_path d) = None -> smem (path_ext (d_path d)) accepted_exts = false ->
   file_fault current_tables d = Some ForeignDetect \/ file_fault current_tables d = Some ForeignJson.
@@ -163,6 +164,64 @@ Theorem C06_current_pb_undecodable_fails : forall d dec,
   file_fault current_tables d = Some PbDecode.
 Proof. exact current_pb_undecodable_fails. Qed.
 Print Assumptions C06_current_pb_undecodable_fails.
+
+Theorem C06_current_pb_unmergeable_fails : forall d dec,
+  ~ bad_collect d -> pb_dispatch pb_cases (d_path d) = Some dec -> d_pay d = PayInvalid ->
+  file_fault current_tables d = Some PbMerge.
+Proof. exact current_pb_unmergeable_fails. Qed.
+Print Assumptions C06_current_pb_unmergeable_fails.
+
+(* the compiled-model arm exactly: the class of a readable compiled model depends on its payload alone *)
+Theorem C06_current_pb_arm_exact : forall d dec,
+  ~ bad_collect d -> pb_dispatch pb_cases (d_path d) = Some dec ->
+  file_fault current_tables d =
+  match d_pay d with PayOk => None | PayUndecodable => Some PbDecode | PayInvalid => Some PbMerge end.
+Proof. exact current_pb_arm_exact. Qed.
+Print Assumptions C06_current_pb_arm_exact.
+
+(* WHICH error wins (second pass; every fault assignment, state, file list and choice): an error of the collection is the
+   outcome whatever the parse stage would say; with a conversion fault among the processed files the outcome is the
+   conversion error of such a file under every choice, and each of them under some choice; without one the outcome does
+   not depend on the choice and is the error of the FIRST file in processing order with a syntax / decoding / merge
+   fault, a module iff there is none *)
+Theorem C06_outcome_winner : forall fl root s,
+  (forall e, froot s = Some (Some e) -> forall choice, foutcome current_rules fl root choice s = Error e) /\
+  (forall l, froot s = Some None -> flatten current_rules (2 + length (fcl s)) (fcl s) [] root = Some l ->
+     (conv_faulty fl l <> [] ->
+        (forall choice, exists f, In f l /\ foreign_fault fl f = true /\
+                                  foutcome current_rules fl root choice s = Error (foreign_err fl f)) /\
+        (forall f, In f l -> foreign_fault fl f = true ->
+                   exists choice, foutcome current_rules fl root choice s = Error (foreign_err fl f))) /\
+     (conv_faulty fl l = [] ->
+        (forall c1 c2, foutcome current_rules fl root c1 s = foutcome current_rules fl root c2 s) /\
+        (forall a f b choice, l = a ++ f :: b -> (forall x, In x a -> body_fault fl x = false) -> body_fault fl f = true ->
+                              foutcome current_rules fl root choice s = Error (body_err fl f)) /\
+        ((forall f, In f l -> body_fault fl f = false) -> forall choice, foutcome current_rules fl root choice s = Model l))).
+Proof. exact (fun fl root s => outcome_winner fl current_rules root s). Qed.
+Print Assumptions C06_outcome_winner.
+
+Theorem C06_stage1_beats_stage2 : forall fl choice l e,
+  conv_faulty fl l <> [] -> parse_specs fl choice l = Error e -> is_conv_err e = true.
+Proof. exact stage1_beats_stage2. Qed.
+Print Assumptions C06_stage1_beats_stage2.
+
+(* vm_compute over concrete inputs - tests, not theorems *)
+Theorem C06_winner_examples :
+  conv_faulty fl_w [0;1;2;3;4]%N = [1;3]%N /\
+  parse_specs fl_w 0 [0;1;2;3;4]%N = Error (EDetect 1%N) /\ parse_specs fl_w 1 [0;1;2;3;4]%N = Error (EConvert 3%N) /\
+  parse_specs fl_w 7 [0;2;4]%N = Error (ESyntax 2%N) /\
+  parse_specs fl_w2 5 [0;1;2]%N = Error (EMerge 1%N) /\ exit_code (EMerge 1%N) = 1%N /\
+  parse_specs fl_w2 5 [0;2;1]%N = Error (EPbDecode 2%N).
+Proof. exact winner_examples. Qed.
+Print Assumptions C06_winner_examples.
+
+Theorem C06_merge_examples :
+  let fl := faults_from current_tables descs_c in
+  let s := frun expected_rules g_foreign fl 0 0%N (repeat 0 20) in
+  ftasks s = [] /\ (forall choice, In choice [0;1;2;3] -> foutcome expected_rules fl 0%N choice s = Error (EMerge 1%N)) /\
+  exit_code (EMerge 1%N) = 1%N.
+Proof. exact merge_runs. Qed.
+Print Assumptions C06_merge_examples.
 
 (* non-vacuity (vm_compute over concrete inputs - tests, not theorems): the hypotheses above are met by concrete files;
    closures with such files fail as stated *)
